@@ -140,7 +140,7 @@ def build_driver():
     os.makedirs(d, exist_ok=True)
     for s in srcs:
         shutil.copy(s, d)
-    mls = ["model.mli", "model.ml"] + [f for f in ["libc_stub.c", "driver_zone.ml", "driver_fmt.ml", "driver.ml"] if os.path.exists(os.path.join(d, f))]
+    mls = ["model.mli", "model.ml"] + [f for f in ["libc_stub.c", "util.ml", "driver_zone.ml", "driver_fmt.ml", "driver.ml"] if os.path.exists(os.path.join(d, f))]
     r = sh(["ocamlfind", "ocamlopt", "-w", "-a"] + mls + ["-o", "driver"], cwd=d)
     if r.returncode != 0:
         shutil.rmtree(d, ignore_errors=True)
@@ -261,7 +261,7 @@ def run_sharded(exe, cases, workdir, tag, shards=14, env=None, timeout=3600):
 # ----------------------------------------------------------------------------
 # Decision
 
-DRV_RE = re.compile(r"^M (.*) ; S (.*) ; P ([01])$")
+DRV_RE = re.compile(r"^M (.*) ; S (.*) ; P ([01])(?: ; K (\S+))?$")
 
 
 class Verdict:
@@ -274,7 +274,7 @@ class Verdict:
         self.ub = 0
 
 
-def compare(cases, impl_lines, drv_lines, impl_failures=(), norm=None):
+def compare(cases, impl_lines, drv_lines, impl_failures=(), norm=None, ub_is_violation=False):
     v = Verdict()
     for i, (c, il, dl) in enumerate(zip(cases, impl_lines, drv_lines)):
         if not c or c.startswith("#"):
@@ -284,6 +284,8 @@ def compare(cases, impl_lines, drv_lines, impl_failures=(), norm=None):
             v.corr_fail.append((i, c, il, dl, "", "driver-output-unparsed"))
             continue
         M, S, P = m.group(1), m.group(2), m.group(3) == "1"
+        if m.group(4):
+            c = c + "  #K=" + m.group(4)
         ub = il.endswith(" UB")
         iv = il[:-3] if ub else il
         if norm:
@@ -292,6 +294,9 @@ def compare(cases, impl_lines, drv_lines, impl_failures=(), norm=None):
             v.ub += 1
         if il.startswith("?ABORT"):
             v.prop_fail.append((i, c, il, M, S, "implementation aborted (sanitizer/timeout) on or before this case"))
+            continue
+        if ub and ub_is_violation and not P:
+            v.prop_fail.append((i, c, il, M, S, "undefined behaviour reported by UBSan (the property forbids it for every input)"))
             continue
         if P:
             v.in_domain += 1
